@@ -838,7 +838,9 @@ def parallel_real_oracle(c, o, s, which):
     """`Y` cases: parallel_fasta / parallel_fastq on real readers against S and against sequential reading."""
     v = Verdict()
     t = c.split(' ')
-    fmt, T, stop = t[1][:2], int(t[2]), (None if t[5] == '-' else int(t[5]))
+    # `<stop|->[@K.k]`: with `@K.k` the byte source fails at its K-th read call with error kind k (sequentially too)
+    stop_s = t[5].split('@')[0]
+    fmt, T, stop = t[1][:2], int(t[2]), (None if stop_s == '-' else int(stop_s))
     if 'HANG' in o or 'leak=0' not in o:
         if 'terminate' in which or 'HANG' in o:
             v.failures.append('parallel call hung or left threads behind: %s' % o[-80:])
@@ -891,6 +893,24 @@ def parallel_real_oracle(c, o, s, which):
             if dc > (q + 1) * max(mb, 1):
                 v.failures.append('%d per-record outputs were created; %d data sets with at most %d records each exist' % (dc, q + 1, mb))
                 return v
+    if 'bounded' in which:
+        # memory independent of the input length: the reader behind read_parallel asks its policy for a larger buffer
+        # only for a record that does not fit; if every record of the input fits the initial capacity the buffer (and
+        # with it every recycled record set, which copies it) keeps its size however long the input is
+        m = re.search(r' gr=(\d+)', o)
+        if m and len(t[1]) == 3 and '@' not in t[5]:
+            inp = bytes.fromhex(t[6]) if t[6] != '-' else b''
+            cap = int(t[4])
+            ext = record_extents(fmt, inp, items)
+            fits = all(((e[1] + 1 <= cap) if fmt == 'fa' else ((e[1] <= cap) if e[2] else (e[1] + 1 <= cap))) for e in ext)
+            clean = all(it[0] == 'rec' for it in items)
+            if fits and clean and ext:
+                v.nontrivial = True
+                if int(m.group(1)) > 0:
+                    v.failures.append('the reader behind read_parallel made %s growth requests although every record of the input fits '
+                                      'its buffer of %d bytes (largest record %d bytes): buffer and recycled record sets grow with the input'
+                                      % (m.group(1), cap, max(e[1] for e in ext)))
+                    return v
     if 'errors' in which:
         if stop is None and par_tail != seq_tail:
             v.failures.append('parallel reading ended with %s, sequential reading with %s' % (par_tail[:80], seq_tail[:80]))
@@ -1447,6 +1467,10 @@ def recset_iter_oracle(c, o, s):
             return v
         if t.startswith('I!'):
             v.failures.append('op %d: record-set iterator breaks its contract: %s' % (idx, t[2:].split(':')[0]))
+            return v
+        if '!hint.' in t:
+            v.failures.append('op %d: the owned-record iterator\'s size hint (%s) does not bracket what it delivered (%s)' % (
+                idx, t.split('!hint.')[1][:20], 'the end' if t.startswith('N') else 'an item'))
             return v
         if t.startswith('I:'):
             v.nontrivial = True
